@@ -2,7 +2,7 @@
 
 from __future__ import annotations
 
-from ..comp import CompScenario
+from ..comp import CompScenario, layout_from_spec, spec_leaves, spread, rand_leaf, rand_layout_spec
 from ..propbase import PropBase, make_plan, phase_at
 
 PORTS = ("write", "read", "peek", "clear")  # bit k of a request mask = PORTS[k]
@@ -18,8 +18,11 @@ class Scen(CompScenario):
         from transactron.lib.connectors import Forwarder, Pipe
 
         c = self.cfg
-        layout = [(n, w) for n, w in c["layout"]]
-        self.fields = [n for n, _ in layout]
+        # the layout as the list form or as a StructLayout object (both are documented method layouts)
+        layout = layout_from_spec(c["layout"], bool(c.get("layout_obj")))
+        self.leafs = spec_leaves(c["layout"])  # (path, width, signed) of every scalar leaf; the first is the tag
+        self.fields = [path for path, _, _ in self.leafs]
+        self.mul = c.get("tagmul", 1)
         self.cls = c["cls"]
         self.fwd = self.cls == "Forwarder"
         self.dut = (Forwarder if self.fwd else Pipe)(layout)
@@ -61,11 +64,11 @@ class Scen(CompScenario):
             for k, q in enumerate((pw, pr, pp, pc)):
                 mask |= int(rng.random() < q) << k
         stim = {f"{n}.en": mask >> k & 1 for k, n in enumerate(PORTS)}
+        # unique tags in the first leaf, spread over its whole width (counter * odd constant modulo 2**width);
+        # noise in the others (full width, with all-zeros / all-ones / sign-bit-only patterns mixed in)
         self.tag += 1
-        for k, f in enumerate(self.fields):
-            name = f"write.i.{f}"
-            w = self.widths[name]
-            stim[name] = (self.tag if k == 0 else rng.getrandbits(w)) & ((1 << w) - 1)
+        for k, (f, w, sgn) in enumerate(self.leafs):
+            stim[f"write.i.{f}"] = spread(self.tag, self.mul, w, sgn) if k == 0 else rand_leaf(rng, w, sgn)
         return self.twin_stim(rng, stim)
 
     # ---- oracle -----------------------------------------------------------------------------
@@ -113,6 +116,7 @@ class Scen(CompScenario):
                         f"{self.cls}.read returned {got}, expected {head and head[1]} (buffer {state}, write ran={w})",
                         port="read")
             self.delivered.append(got)
+            self.data_cov(got)
         if pk and head is not None:
             # "peek" = what read would hand out, without consuming it: an executed peek must show the value a read
             # in the same cycle returns (the statement calls peek the non-consuming read)
@@ -177,6 +181,22 @@ class Scen(CompScenario):
                 self.dropped.add(self.buf[0])
             self.buf = None
 
+    def data_cov(self, got):
+        """What kind of value came back intact."""
+        for (f, w, sgn), v in zip(self.leafs, got):
+            if w >= 10 and (v if v >= 0 else v + (1 << w)) >> 9:
+                self.hit("returned_value_with_bits_above_9")
+            if w > 32 and (v if v >= 0 else v + (1 << w)) >> 32:
+                self.hit("returned_value_with_bits_above_32")
+            if sgn and v < 0:
+                self.hit("returned_negative_signed_field")
+            if w == 1 and v:
+                self.hit("returned_one_bit_field_set")
+        if len(self.leafs) >= 3:
+            self.hit("returned_struct_of_3_or_more_leaves")
+        if any("." in f for f in self.fields):
+            self.hit("returned_nested_or_array_field")
+
     def finish(self):
         if all(self.seen[0]) and all(self.seen[1]):
             self.hit("run_applied_all_32_state_request_pairs")
@@ -198,7 +218,9 @@ class Prop(PropBase):
         "quick": {"runs": 480, "selftest_runs": 4},
         "thorough": {"runs": 10000, "selftest_runs": 32},
     }
-    rule = ("one run = Forwarder or Pipe (1-2 field layout) driven for 80-240 cycles by a seeded phase plan (random / "
+    rule = ("one run = Forwarder or Pipe (tag alone or tag + small aux field, or (55 %) wide up to 64 bit / signed / 1-bit / "
+            "3-4-field / nested-struct / array fields, given as a list or as a StructLayout object; tag = counter * per-run odd "
+            "constant modulo 2**width) driven for 80-240 cycles by a seeded phase plan (random / "
             "sweep over not yet applied request subsets / stream / stall / starve / flush / idle), any of the 16 subsets "
             "of write/read/peek/clear requested per cycle, unique tags; distinct = distinct (class, layout, buffer "
             "state, request subset, executed call set); non-trivial = some call executed.  The model has 2 states: all "
@@ -210,7 +232,9 @@ class Prop(PropBase):
         "pipe_write_refused_at_full", "pipe_read_refused_at_empty", "pipe_write_enabled_by_same_cycle_read",
         "peek_without_read_at_full", "peek_with_read", "peek_value_is_head",
         "clear_with_write_value_dropped", "clear_with_write_and_read", "clear_drops_buffered_value",
-        "clear_with_read_at_full"]
+        "clear_with_read_at_full",
+        "returned_value_with_bits_above_9", "returned_value_with_bits_above_32", "returned_negative_signed_field",
+        "returned_one_bit_field_set", "returned_struct_of_3_or_more_leaves", "returned_nested_or_array_field"]
     real = ["transactron.lib.connectors.Forwarder", "transactron.lib.connectors.Pipe", "transactron.lib.adapters.AdapterTrans",
             "TransactionManager + scheduler (schedule_before ordering)", "amaranth pysim"]
     stubs = ["cycle driver (stimulus)", "one-slot reference model"]
@@ -219,13 +243,14 @@ class Prop(PropBase):
     def gen_config(self, rng, tier, idx):
         big = tier == "thorough"
         cls = rng.choice(["Forwarder", "Pipe"])
-        layout = [["tag", rng.choice([10, 12, 16])]]
-        if rng.random() < 0.4:
-            layout.append(["aux", rng.choice([1, 3, 8])])
+        layout = rand_layout_spec(rng, rich=rng.random() < 0.55)
         cycles = rng.randint(80, 400 if big else 240)
         kinds = ["random", "random", "sweep", "sweep", "stream", "stall", "starve", "flush", "idle"]
-        return {"cls": cls, "layout": layout, "cycles": cycles, "twin": int(rng.random() < 0.3), "sched": rng.choice(["eager", "eager", "rr"]),
-                "plan": make_plan(rng, cycles, kinds, min_len=4, max_len=32)}
+        cfg = {"cls": cls, "layout": layout, "cycles": cycles, "twin": int(rng.random() < 0.3), "sched": rng.choice(["eager", "eager", "rr"]),
+               "plan": make_plan(rng, cycles, kinds, min_len=4, max_len=32)}
+        cfg["tagmul"] = rng.getrandbits(64) | 1  # tag = counter * odd constant modulo 2**width: unique, all bits used
+        cfg["layout_obj"] = int(rng.random() < 0.25)
+        return cfg
 
     def make(self, cfg):
         return Scen(cfg)
@@ -234,12 +259,16 @@ class Prop(PropBase):
         return {"cls": cfg["cls"], "port": (viol.get("info") or {}).get("port")}
 
     def cfg_signature(self, cfg):
-        return [cfg["cls"], cfg["layout"], cfg["sched"], cfg.get("twin", 0)]
+        return [cfg["cls"], cfg["layout"], cfg["sched"], cfg.get("twin", 0), cfg.get("layout_obj", 0)]
 
     def shrink_cfg(self, cfg):
         if len(cfg["layout"]) > 1:
             c = dict(cfg)
             c["layout"] = cfg["layout"][:1]
+            yield c
+        if cfg.get("layout_obj"):
+            c = dict(cfg)
+            c["layout_obj"] = 0
             yield c
         if cfg["sched"] != "eager":
             c = dict(cfg)
